@@ -12,48 +12,57 @@
      LenientMatch     other record types whose name ends in "RuntimeDone" also flush
      NotifyEarly      the forwarder notifies after the first answered attempt instead of after the delivery attempt as a whole
      NoInitialFlush   the heartbeat does not flush before its first wait
-     InitialNotifyOnly  the heartbeat only posts the notification instead of flushing first *)
+     InitialNotifyOnly  the heartbeat only posts the notification instead of flushing first
+   The registration race (added with finding 18): the manager starts the server in a goroutine, waits 100 ms of real time for start-up errors
+   and starts the heartbeat; the forwarder registers its consolidator on the coordinator in its constructor, somewhere inside the server's
+   start-up.  Nothing orders the two.  StartRace = TRUE lets the server come up (ServerUp) at any point; until then the coordinator's
+   target is its placeholder, and nothing can be accepted.  NoopNotifies = FALSE is the code as found (a flush of the placeholder does
+   nothing: the heartbeat waits for a notification nobody sends -- NoStall is violated); TRUE is the repair (a flush with nothing
+   registered is complete as it stands and says so). *)
 EXTENDS Naturals, FiniteSets, TLC
-CONSTANTS MaxInv, MaxPoints, MaxAttempts, MaxOther, LenientMatch, NotifyEarly, NoInitialFlush, InitialNotifyOnly
+CONSTANTS MaxInv, MaxPoints, MaxAttempts, MaxOther, LenientMatch, NotifyEarly, NoInitialFlush, InitialNotifyOnly, StartRace, NoopNotifies
 
-VARIABLES hb, chan, cons, posts, nextId, rt, inv, pending, others, point, marked,
+VARIABLES hb, chan, cons, posts, nextId, rt, inv, pending, others, point, marked, reg,
           accepted, due, settled, inflight, answered, nexts, running, doneSent, faulty, initErr, bad
 Prop == INSTANCE LambdaProp
-ivars == <<hb, chan, cons, posts, nextId, rt, inv, pending, others, point, marked>>
+ivars == <<hb, chan, cons, posts, nextId, rt, inv, pending, others, point, marked, reg>>
 mvars == <<accepted, due, settled, inflight, answered, nexts, running, doneSent, faulty, initErr, bad>>
 vars == <<ivars, mvars>>
 
 Init == /\ hb = (IF NoInitialFlush THEN "wait" ELSE "flush0") /\ chan = 0 /\ cons = {} /\ posts = {} /\ nextId = 1 /\ rt = "idle" /\ inv = 0
-        /\ pending = 0 /\ others = 0 /\ point = 1 /\ marked = NoInitialFlush /\ Prop!PInit
+        /\ pending = 0 /\ others = 0 /\ point = 1 /\ marked = NoInitialFlush /\ reg = ~StartRace /\ Prop!PInit
 
 \* consolidator.Flush + the forwarder's Run loop taking the batch: an empty batch only notifies
 Spawn(st) == /\ posts' = posts \cup {[id |-> nextId, ds |-> cons, st |-> st, n |-> 0, told |-> FALSE]} /\ nextId' = nextId + 1 /\ cons' = {}
-DoFlush == Spawn(IF cons = {} THEN "notify" ELSE "send")
+DoFlush == IF reg THEN Spawn(IF cons = {} THEN "notify" ELSE "send")
+           ELSE IF NoopNotifies THEN posts' = posts \cup {[id |-> nextId, ds |-> {}, st |-> "notify", n |-> 0, told |-> FALSE]} /\ nextId' = nextId + 1 /\ UNCHANGED cons
+           ELSE UNCHANGED <<cons, posts, nextId>>
+ServerUp == ~reg /\ reg' = TRUE /\ UNCHANGED <<hb, chan, cons, posts, nextId, rt, inv, pending, others, point, marked, mvars>>
 \* a bare notification: nothing leaves the consolidator
 Spawn0 == posts' = posts \cup {[id |-> nextId, ds |-> {}, st |-> "notify", n |-> 0, told |-> FALSE]} /\ nextId' = nextId + 1 /\ UNCHANGED cons
 
 \* datapoints accepted during the init phase; the mark says they are due with the initial flush
-InitEmit == hb = "flush0" /\ ~marked /\ point <= MaxPoints /\ cons' = cons \cup {point} /\ point' = point + 1 /\ Prop!PAccept(point)
-            /\ UNCHANGED <<hb, chan, posts, nextId, rt, inv, pending, others, marked>>
-InitMark == hb = "flush0" /\ ~marked /\ marked' = TRUE /\ Prop!PInitMark /\ UNCHANGED <<hb, chan, cons, posts, nextId, rt, inv, pending, others, point>>
+InitEmit == reg /\ hb = "flush0" /\ ~marked /\ point <= MaxPoints /\ cons' = cons \cup {point} /\ point' = point + 1 /\ Prop!PAccept(point)
+            /\ UNCHANGED <<hb, chan, posts, nextId, rt, inv, pending, others, marked, reg>>
+InitMark == hb = "flush0" /\ ~marked /\ marked' = TRUE /\ Prop!PInitMark /\ UNCHANGED <<hb, chan, cons, posts, nextId, rt, inv, pending, others, point, reg>>
 HbFlush0 == /\ hb = "flush0" /\ marked /\ hb' = "wait"
             /\ (IF InitialNotifyOnly THEN Spawn0 ELSE DoFlush)
-            /\ UNCHANGED <<chan, rt, inv, pending, others, point, marked, mvars>>
-HbWait == hb = "wait" /\ chan = 1 /\ chan' = 0 /\ hb' = "next" /\ Prop!PNextReq /\ UNCHANGED <<cons, posts, nextId, rt, inv, pending, others, point, marked>>
+            /\ UNCHANGED <<chan, rt, inv, pending, others, point, marked, reg, mvars>>
+HbWait == hb = "wait" /\ chan = 1 /\ chan' = 0 /\ hb' = "next" /\ Prop!PNextReq /\ UNCHANGED <<cons, posts, nextId, rt, inv, pending, others, point, marked, reg>>
 RtInvoke == hb = "next" /\ rt = "idle" /\ pending = 0 /\ inv < MaxInv /\ inv' = inv + 1 /\ rt' = "running" /\ hb' = "wait" /\ others' = 0
-            /\ Prop!PInvoke /\ UNCHANGED <<chan, cons, posts, nextId, pending, point, marked>>
-FnEmit == rt = "running" /\ point <= MaxPoints /\ cons' = cons \cup {point} /\ point' = point + 1 /\ Prop!PAccept(point)
-          /\ UNCHANGED <<hb, chan, posts, nextId, rt, inv, pending, others, marked>>
+            /\ Prop!PInvoke /\ UNCHANGED <<chan, cons, posts, nextId, pending, point, marked, reg>>
+FnEmit == reg /\ rt = "running" /\ point <= MaxPoints /\ cons' = cons \cup {point} /\ point' = point + 1 /\ Prop!PAccept(point)
+          /\ UNCHANGED <<hb, chan, posts, nextId, rt, inv, pending, others, marked, reg>>
 \* a telemetry batch with another record type (platform.start, platform.report, platform.initRuntimeDone, ...)
 RtOther == rt \in {"running", "idle"} /\ others < MaxOther /\ others' = others + 1
            /\ (IF LenientMatch THEN DoFlush ELSE UNCHANGED <<cons, posts, nextId>>)
-           /\ UNCHANGED <<hb, chan, rt, inv, pending, point, marked, mvars>>
-RtDone == rt = "running" /\ rt' = "idle" /\ pending' = pending + 1 /\ Prop!PRuntimeDone /\ UNCHANGED <<hb, chan, cons, posts, nextId, inv, others, point, marked>>
-TelFlush == pending > 0 /\ pending' = pending - 1 /\ DoFlush /\ UNCHANGED <<hb, chan, rt, inv, others, point, marked, mvars>>
+           /\ UNCHANGED <<hb, chan, rt, inv, pending, point, marked, reg, mvars>>
+RtDone == rt = "running" /\ rt' = "idle" /\ pending' = pending + 1 /\ Prop!PRuntimeDone /\ UNCHANGED <<hb, chan, cons, posts, nextId, inv, others, point, marked, reg>>
+TelFlush == pending > 0 /\ pending' = pending - 1 /\ DoFlush /\ UNCHANGED <<hb, chan, rt, inv, others, point, marked, reg, mvars>>
 
 Upd(p, q) == posts' = (posts \ {p}) \cup {q}
 PostAttempt(p) == p.st = "send" /\ Upd(p, [p EXCEPT !.st = "flight", !.n = @ + 1]) /\ Prop!PUpReq(p.ds)
-                  /\ UNCHANGED <<hb, chan, cons, nextId, rt, inv, pending, others, point, marked>>
+                  /\ UNCHANGED <<hb, chan, cons, nextId, rt, inv, pending, others, point, marked, reg>>
 \* the answer: success ends the delivery; failure backs off and retries until the window is over (MaxAttempts)
 PostAnswer(p, ok) == /\ p.st = "flight" /\ Prop!PUpDone(p.ds)
                      /\ LET done == ok \/ p.n >= MaxAttempts
@@ -61,11 +70,11 @@ PostAnswer(p, ok) == /\ p.st = "flight" /\ Prop!PUpDone(p.ds)
                         IF early /\ chan = 0
                         THEN chan' = 1 /\ Upd(p, [p EXCEPT !.st = "send", !.told = TRUE])
                         ELSE ~early /\ chan' = chan /\ Upd(p, [p EXCEPT !.st = IF done THEN (IF p.told THEN "gone" ELSE "notify") ELSE "send"])
-                     /\ UNCHANGED <<hb, cons, nextId, rt, inv, pending, others, point, marked>>
-PostNotify(p) == p.st = "notify" /\ chan = 0 /\ chan' = 1 /\ posts' = posts \ {p} /\ UNCHANGED <<hb, cons, nextId, rt, inv, pending, others, point, marked, mvars>>
-PostGone(p) == p.st = "gone" /\ posts' = posts \ {p} /\ UNCHANGED <<hb, chan, cons, nextId, rt, inv, pending, others, point, marked, mvars>>
+                     /\ UNCHANGED <<hb, cons, nextId, rt, inv, pending, others, point, marked, reg>>
+PostNotify(p) == p.st = "notify" /\ chan = 0 /\ chan' = 1 /\ posts' = posts \ {p} /\ UNCHANGED <<hb, cons, nextId, rt, inv, pending, others, point, marked, reg, mvars>>
+PostGone(p) == p.st = "gone" /\ posts' = posts \ {p} /\ UNCHANGED <<hb, chan, cons, nextId, rt, inv, pending, others, point, marked, reg, mvars>>
 
-Next == InitEmit \/ InitMark \/ HbFlush0 \/ HbWait \/ RtInvoke \/ FnEmit \/ RtOther \/ RtDone \/ TelFlush
+Next == ServerUp \/ InitEmit \/ InitMark \/ HbFlush0 \/ HbWait \/ RtInvoke \/ FnEmit \/ RtOther \/ RtDone \/ TelFlush
         \/ \E p \in posts : PostAttempt(p) \/ PostNotify(p) \/ PostGone(p) \/ \E ok \in BOOLEAN : PostAnswer(p, ok)
 Spec == Init /\ [][Next]_vars
 MonitorQuiet == bad = ""
